@@ -127,8 +127,8 @@ func c18RunIn(hist []c18Action, queries bool) vh.HistResult {
 	if !queries || c18Seen[res.Digest] {
 		return res
 	}
-	c18Seen[res.Digest] = true
-	// ---- queries
+	// ---- queries (a state whose queries all passed is not queried again; a failing one is, so
+	// that the engine's re-runs of a violating history reproduce it)
 	type window struct {
 		label         string
 		after, before time.Time
@@ -216,6 +216,7 @@ func c18RunIn(hist []c18Action, queries bool) vh.HistResult {
 	}
 	sort.Strings(keys)
 	res.Outcome = fmt.Sprintf("%d query outcome classes", len(keys))
+	c18Seen[res.Digest] = true
 	return res
 }
 
